@@ -90,6 +90,31 @@ def acc_cases(rng, tier):
     for t in c128_many_switches():
         add("c128", t)
         add("c128n", t)
+    # normalisation probes, UTF-8 oddities, magic sequences for every encoder (round 4)
+    valid = {"ean": b"1234567", "codabar": b"A1234B", "tof 0": b"123456", "tof 1": b"123456", "c39 1 0": b"CODE39", "c39 0 1": b"Code39",
+             "c93 1 0": b"CODE93", "c93 1 1": b"Code93", "c128": b"Code128", "c128n": b"12345678", "qr 0 0": b"hello", "qr 1 0": b"12345",
+             "qr 2 0": b"HELLO 123", "qr 3 3": b"hello", "qr 0 1": b"123456", "qr 1 2": b"AB12", "dm": b"Hello12", "az 23 0": b"Hello12",
+             "pdf 1": b"Hello12", "pdf 0": b"1234567890123456"}
+    odd = utf8_oddities()
+    magic = magic_sequences()
+    for enc, v in valid.items():
+        for t in normalisation_probes(v):
+            add(enc, t)
+        for o in odd:
+            add(enc, o + v)
+            add(enc, v + o)
+        if enc.split()[0] in ("qr", "dm", "az", "pdf", "c128", "c93", "c39"):
+            for m in magic:
+                add(enc, m)
+                add(enc, v + m)
+    for t in big_value_digit_runs(rng):
+        add("tof 0", t)
+        add("tof 1", t if len(t) % 2 == 0 else "0" + t)
+        add("pdf 0", t)
+        add("qr 0 1", t)
+        add("dm", t)
+    for t in ean_sums(rng)[:: (4 if tier == "quick" else 1)]:
+        add("ean", t)
     # sign characters inside / at the start of the 3-digit groups of QR numeric mode
     for sign in "+-":
         for pos in range(0, 7):
@@ -162,3 +187,105 @@ def c128_many_switches():
     out.append(("\\x01a" * 39 + "\\x02")[:80])
     out.append("12" + "\\x01a" * 38 + "12")
     return [t.encode().decode("unicode_escape") for t in out]
+
+
+# ---- round 4: normalisation, magic sequences, value-dependent arithmetic -------------------------------------
+BOM = b"\xef\xbb\xbf"
+
+
+def utf8_oddities():
+    """byte strings a 'helpful' normalisation step might rewrite"""
+    return [BOM, b"\xff\xfe", b"\xfe\xff", b"\xef\xbb", b"\xe2\x80\x8b", b"\xc2\xa0", b"\xe2\x80\x8f",
+            b"\xed\xa0\xbd\xed\xb8\x80",            # CESU-8 surrogate pair (U+1F600 as two 3-byte sequences)
+            b"\xed\xa0\xbd", b"\xed\xb8\x80", b"\xed\xb8\x80\xed\xa0\xbd", b"\xed\xa0\xbdA\xed\xb8\x80",
+            b"\xf0\x9f\x98\x80", b"\xc0\x80", b"\xe0\x80\x80", b"\xc0\xaf", b"\xf4\x8f\xbf\xbf", b"\xf4\x90\x80\x80",
+            b"\xef\xbf\xbe", b"\xef\xbf\xbd", b"e\xcc\x81", b"\xc3\xa9", b"A\xcc\x8a", b"\xe2\x84\xab", b"\xef\xac\x81",
+            b"\xf8\x88\x80\x80\x80", b"\xfc\x84\x80\x80\x80\x80"]
+
+
+def magic_sequences():
+    """sequences that barcode standards give a special meaning (macros, symbology identifiers, separators, escapes)"""
+    RS, GS, EOT, FS, US = b"\x1e", b"\x1d", b"\x04", b"\x1c", b"\x1f"
+    out = []
+    for fmt in (b"05", b"06", b"07", b"12"):
+        for body in (b"DATA", b"A" + GS + b"B", b"X" + RS, b"X" + EOT, b"X" + RS + EOT, b""):
+            out.append(b"[)>" + RS + fmt + GS + body + RS + EOT)
+            out.append(b"[)>" + RS + fmt + GS + body)
+    out += [b"]C1", b"]d2", b"]Q3", b"]E0", b"]L2", b"\\000026", b"\\000003AB", b"\\\\", b"\\F", b"{FNC1}", b"^FNC1",
+            b"(01)09501101530003", b"010950110153000317140704", GS + b"01", b"A" + GS, RS + EOT, FS + b"A" + US,
+            b"~d029", b"~1", b"%O", b"$P", b"/A", b"+A", b"%U"]
+    return out
+
+
+def normalisation_probes(valid):
+    """a valid content (bytes) surrounded / interleaved with bytes a normalisation step might drop or rewrite"""
+    v = valid
+    out = []
+    for pre in (BOM, b" ", b"\t", b"\n", b"\x00", b"\xe2\x80\x8b", b"\xc2\xa0", b"+", b"-", b"0"):
+        out.append(pre + v)
+    for suf in (BOM, b" ", b"\t", b"\n", b"\r\n", b"\x00", b"\x00\x00", b"\xe2\x80\x8b", b"\x1a", b"\x04"):
+        out.append(v + suf)
+    # NUL (a natural "nothing pending" sentinel) and pairs of NULs at every position; the BOM inside
+    for i in range(0, len(v) + 1):
+        out.append(v[:i] + b"\x00" + v[i:])
+        if i % 2 == 0:
+            out.append(v[:i] + b"\x00\x00" + v[i:])
+    out.append(v[: len(v) // 2] + BOM + v[len(v) // 2:])
+    # case changes
+    if v.lower() != v:
+        out.append(v.lower())
+    if v.upper() != v:
+        out.append(v.upper())
+    return out
+
+
+def ean_sums(rng):
+    """EAN bodies covering EVERY weighted check sum (12 digits: 0..216, 7 digits: 0..135): arithmetic tricks for
+    the modulo are exact only on part of the range"""
+    out = []
+    for n, wts in ((12, [1, 3] * 6), (7, [3, 1, 3, 1, 3, 1, 3])):
+        top = 9 * sum(wts)
+        for target in range(0, top + 1):
+            for attempt in range(30):
+                d = [rng.randrange(10) for _ in range(n)]
+                s = sum(a * b for a, b in zip(d, wts))
+                # repair greedily towards the target
+                for i in rng.sample(range(n), n):
+                    diff = target - s
+                    if diff == 0:
+                        break
+                    step = max(-d[i], min(9 - d[i], int(diff / wts[i])))
+                    d[i] += step
+                    s += step * wts[i]
+                if s == target:
+                    out.append("".join(map(str, d)))
+                    break
+    return out
+
+
+def big_value_digit_runs(rng, lo=1, hi=45):
+    """digit strings of every length with maximal / high leading digits (fast paths through fixed-width integers)"""
+    out = []
+    for n in range(lo, hi + 1):
+        out.append("9" * n)
+        out.append(rng.choice("89") + digits(rng, n - 1))
+        out.append("1" + "0" * (n - 1))
+    out += ["9223372036854775807", "9223372036854775808", "18446744073709551615", "18446744073709551616", "4294967295", "4294967296",
+            "2147483647", "2147483648", "65535", "65536", "99999999999999999999"]
+    return out
+
+
+def zero_value_runs(zero, other, lengths=(10, 16, 20, 29, 30, 31, 40, 45, 60, 103)):
+    """long runs of the symbol whose check value is 0, with non-zero neighbours (weights must keep their phase)"""
+    out = []
+    for L in lengths:
+        out.append(other + zero * L + other)
+        out.append(zero * L + other)
+        out.append(other + zero * L)
+        out.append(other * 3 + zero * L + other * 2 + zero * (L // 2) + other)
+    return out
+
+
+def family(rng, tier, prefixes, maxlen=20000):
+    """the acc_cases of the given encoder families (encodeAny argument strings), without the very long ones"""
+    return [g for g in acc_cases(rng, tier) if g.split(" ")[0] in prefixes and len(g) < maxlen]
